@@ -20,6 +20,7 @@ type Ctx struct {
 
 func NewCtx(p *an.Prog, a *Anchors, r *an.Report) *Ctx {
 	indexCallSites(p)
+	indexDerivedSets(p)
 	return &Ctx{P: p, A: a, R: r, O: an.NewOriginator(p)}
 }
 
